@@ -273,9 +273,11 @@ func init() {
 						rec("", 0)
 					})
 				}, Eval: evalC17Virtual},
-			{Name: "first-terminator-wide", Space: "12 constructs x every body over the 14-symbol union alphabet of all terminator/escape/decoy bytes, length <=4 (quick) / <=5 (thorough) x 3 tails", Share: 3,
+			{Name: "first-terminator-wide", Space: "12 constructs x every body over the 14-symbol union alphabet of all terminator/escape/decoy bytes plus the literals the tree under test has in addition to the pinned tree, length <=4 (quick) / <=5 (thorough) x 3 tails", Share: 3,
 				Run: func(w *fw.W) {
 					maxL := w.Pick(4, 5)
+					// literals the tree under test has in addition to the pinned tree may be new terminators / markers
+					wide := uniq(c17Wide, alpha.DeltaHTML(), newByteAtoms())
 					w.Each(len(constructs)*len(c17Tails), func(i int) {
 						cs := constructs[i/len(c17Tails)]
 						aux := "wide:" + cs.name + "|" + c17Tails[i%len(c17Tails)]
@@ -284,7 +286,7 @@ func init() {
 							if d == maxL || w.Expired() {
 								return
 							}
-							for _, a := range c17Wide {
+							for _, a := range wide {
 								nb := b + a
 								// bodies that change which construct the opener starts are not bodies of this construct
 								if cs.opener == "<!" && cs.pre == "" && (strings.HasPrefix(nb, "-") || strings.HasPrefix(nb, "[") || strings.HasPrefix(nb, "d")) {
